@@ -63,7 +63,7 @@ def _theorems(ctx, alphabets):
     # sensitivity: each deviation alone, and the as-built combination, must break the invariant
     jobs = [(["CountVoidStartTag"], "AlphaQ1", 4), (["AnyStartTagIncrements"], "AlphaQ1", 5),
             (["AnyEndTagDecrements"], "AlphaQ1", 4), (["VoidRemovableNeverCloses"], "AlphaQ1", 4),
-            (["NoClose"], "AlphaQ2", 4), (DEVIATIONS, "AlphaQ1", 4)]
+            (["NoClose"], "AlphaQ2", 4), (["FirstEndTagCloses"], "AlphaQ4", 5), (DEVIATIONS, "AlphaQ1", 4)]
     if ctx.thorough:
         jobs += [([d], "AlphaQ2", 5) for d in DEVIATIONS if d != "VoidRemovableNeverCloses"]
 
@@ -82,7 +82,7 @@ def _theorems(ctx, alphabets):
                     hit[key] = (a, r)
                     ev.tlc(f"HtmlSkip sensitivity: deviation {key} must break the invariant ({a} len<={n})", r,
                            note="expected violation; witness " + _witness(r))
-    missing = [d for d in DEVIATIONS + ["AsBuilt"] if d not in hit]
+    missing = [d for d in DEVIATIONS + ["FirstEndTagCloses", "AsBuilt"] if d not in hit]
     if missing:
         raise MachineryError(f"sensitivity runs found no counterexample for {missing}: invariant vacuous or bound too small")
 
@@ -506,12 +506,12 @@ def run(ctx):
         return _replay(ctx)
     # ---- 1. theorem + sensitivity
     if ctx.thorough:
-        theorem = [("AlphaQ1", 5), ("AlphaQ2", 5), ("AlphaQ3", 7), ("AlphaT", 5), ("AlphaT2", 5)]
-        gens = [("AlphaT", 4, 0), ("AlphaT2", 4, 0), ("AlphaQ3", 6, 0), ("AlphaQ1", 5, 5), ("AlphaQ2", 5, 5)]
+        theorem = [("AlphaQ1", 5), ("AlphaQ2", 5), ("AlphaQ3", 7), ("AlphaQ4", 6), ("AlphaT", 5), ("AlphaT2", 5)]
+        gens = [("AlphaT", 4, 0), ("AlphaT2", 4, 0), ("AlphaQ3", 6, 0), ("AlphaQ4", 5, 0), ("AlphaQ1", 5, 5), ("AlphaQ2", 5, 5)]
         sample5, n_eml, n_msgfile = 40000, 5000, 1200
     else:
-        theorem = [("AlphaQ1", 4), ("AlphaQ2", 4)]
-        gens = [("AlphaQ1", 4, 0), ("AlphaQ2", 4, 0)]
+        theorem = [("AlphaQ1", 4), ("AlphaQ2", 4), ("AlphaQ4", 5)]
+        gens = [("AlphaQ1", 4, 0), ("AlphaQ2", 4, 0), ("AlphaQ4", 5, 0)]
         sample5, n_eml, n_msgfile = 0, 1200, 160
     _theorems(ctx, theorem)
     ctx.log(f"theorem + sensitivity runs done ({_t()}s)")
